@@ -1,7 +1,8 @@
 import CJ.Drv.Loop
 import CJ.Drv.Phantom
+import CJ.Drv.PhantomPort
 /-! Driver for C14: phantom selection (all selector generations, station / client / frozen clients),
-`crypto/rand.Int` and `binary.Varint` on their own. -/
+`crypto/rand.Int` and `binary.Varint` on their own; the station's destination-port decision. -/
 open CJ.Drv
 
 def main : IO Unit := runDriver fun
@@ -9,4 +10,5 @@ def main : IO Unit := runDriver fun
   | "offset" :: args => Phantom.handleOffset args
   | "randint" :: args => Phantom.handleRandInt args
   | "varint" :: args => Phantom.handleVarint args
+  | "dstport" :: args => PhantomPort.handle args
   | _ => none
